@@ -1325,6 +1325,14 @@ func replayCase(worker int, d caseDesc) ([]finding, error) {
 
 func TestCheck(t *testing.T) {
 	r := runner.Start("C15", "exploration")
+	if ji, ok := runner.Job(); ok { // child process: one shard of one scenario of the schedule part (sched_test.go)
+		if jobs := schedJobs(r.Thorough()); ji < len(jobs) {
+			runSchedJob(r, t, jobs[ji])
+		} else {
+			r.Infra("no schedule job %d", ji)
+		}
+		r.Finish()
+	}
 	deadline := r.Deadline(240*time.Second, 14*time.Minute) // caps for a heavily loaded machine; about 15 s / 45 s on 16 idle cores
 	c := &collector{findings: map[string]finding{}, tl: newTally()}
 
@@ -1332,6 +1340,14 @@ func TestCheck(t *testing.T) {
 		r.Finish()
 	}
 
+	if p := runner.ReplayPath(); p != "" && schedReplay(r, t, p) {
+		r.NotExhaustive("single schedule replay")
+		r.Set("rule", "replay of one recorded schedule")
+		r.Sample(map[string]any{"replayed": p})
+		r.Distinct("replay")
+		r.Distinct(p)
+		r.Finish()
+	}
 	if p := runner.ReplayPath(); p != "" {
 		var file struct {
 			Replay caseDesc `json:"replay"`
@@ -1360,6 +1376,13 @@ func TestCheck(t *testing.T) {
 		r.Distinct(file.Replay.label())
 		r.Finish()
 	}
+
+	// the schedule part runs in child processes next to the enumeration below
+	schedDone := make(chan struct{})
+	go func() {
+		defer close(schedDone)
+		r.RunJobs(len(schedJobs(r.Thorough())), 12, runner.Pick(r, 4*time.Minute, 12*time.Minute))
+	}()
 
 	t0 := time.Now()
 	units := buildUnits(r)
@@ -1405,6 +1428,8 @@ func TestCheck(t *testing.T) {
 	close(ch)
 	wg.Wait()
 	r.Set("enumeration_wall_s", time.Since(t0).Seconds())
+	<-schedDone
+	r.Set("schedule_part_wall_s", time.Since(t0).Seconds())
 
 	for _, msg := range c.infra {
 		r.Infra("%s", msg)
@@ -1495,7 +1520,11 @@ func TestCheck(t *testing.T) {
 		"Oracle: reference acceptability/admissibility from the statement and docs; accept => 200, published=n, every item stored with requested id/route/target/payload/headers/trace/received_at/next_run_at "+
 		"in the shape of a real ingress message, other rows untouched except exact drop_oldest evictions of queued rows, depth <= max_depth, listed by GET /messages; "+
 		"reject => structured 4xx/5xx, row dump (all columns) identical, item_index = lowest unacceptable index. "+
-		"distinct_nontrivial = distinct (path, first unacceptable kind or request/body/queue-full cause, its position / batch size, pre-state, observed status/code) classes")
+		"distinct_nontrivial = distinct (path, first unacceptable kind or request/body/queue-full cause, its position / batch size, pre-state, observed status/code) classes"+
+		schedRule+"; for the schedule part distinct = (scenario, answers) classes")
+	r.Assume("schedule part: scheduling points are lock / atomic / pooled-connection operations; code between them is thread-local provided it is data-race free (side condition: the free-running -race pass of race_test.go)")
+	r.Assume("schedule part: which item_index an OVERLAPPING request names is not compared (a request that loses a race for an id is refused by the store, which names no item; a request judged item by item during a reload may name a later item); status, code, published count, final rows and the after-request (including its item_index) are")
+	r.Assume("schedule part: error status/code of a refused overlapping publish is recorded, not asserted (a refusal may be duplicate_id or queue_full depending on which check the loser reaches first); asserted is accepted/refused per request and the final rows against every sequential order")
 	r.Assume("error codes and HTTP status values per cause are recorded (observed_verdicts_by_first_cause) but not asserted: the statement only demands a structured error")
 	r.Assume("which queued row drop_oldest evicts is not asserted here (C12); only the number of evictions and that evicted rows were queued")
 	r.Assume("the store is created by the harness (qsys: frozen clock, max_depth 3) and handed to app.VerifBoot; queue_limits in the DSL text mirror it; Postgres is not executed")
